@@ -8,7 +8,7 @@ use yasna::Tag;
 #[cfg(feature = "pem")]
 use crate::ENCODE_CONFIG;
 use crate::{
-	oid, write_distinguished_name, write_dt_utc_or_generalized,
+	dt_to_utc, oid, write_distinguished_name, write_dt_utc_or_generalized,
 	write_x509_authority_key_identifier, write_x509_extension, Certificate, Error, Issuer,
 	KeyIdMethod, KeyPair, KeyUsagePurpose, SerialNumber,
 };
@@ -242,12 +242,12 @@ impl CertificateRevocationListParams {
 			// RFC 5280 §5.1.2.4:
 			//    This field indicates the issue date of this CRL.  thisUpdate may be
 			//    encoded as UTCTime or GeneralizedTime.
-			write_dt_utc_or_generalized(writer.next(), self.this_update);
+			write_dt_utc_or_generalized(writer.next(), self.this_update)?;
 
 			// Write nextUpdate date.
 			// While OPTIONAL in the ASN.1 module, RFC 5280 §5.1.2.5 says:
 			//   Conforming CRL issuers MUST include the nextUpdate field in all CRLs.
-			write_dt_utc_or_generalized(writer.next(), self.next_update);
+			write_dt_utc_or_generalized(writer.next(), self.next_update)?;
 
 			// Write revokedCertificates.
 			// RFC 5280 §5.1.2.6:
@@ -256,9 +256,10 @@ impl CertificateRevocationListParams {
 			if !self.revoked_certs.is_empty() {
 				writer.next().write_sequence(|writer| {
 					for revoked_cert in &self.revoked_certs {
-						revoked_cert.write_der(writer.next());
+						revoked_cert.write_der(writer.next())?;
 					}
-				});
+					Ok::<(), Error>(())
+				})?;
 			}
 
 			// Write crlExtensions.
@@ -362,7 +363,12 @@ pub struct RevokedCertParams {
 }
 
 impl RevokedCertParams {
-	fn write_der(&self, writer: DERWriter) {
+	fn write_der(&self, writer: DERWriter) -> Result<(), Error> {
+		// The invalidity date is written from a closure that can not fail
+		let invalidity_date = match self.invalidity_date {
+			Some(invalidity_date) => Some(dt_to_utc(invalidity_date)?),
+			None => None,
+		};
 		writer.write_sequence(|writer| {
 			// Write serial number.
 			// RFC 5280 §4.1.2.2:
@@ -377,7 +383,7 @@ impl RevokedCertParams {
 				.write_bigint_bytes(self.serial_number.as_ref(), true);
 
 			// Write revocation date.
-			write_dt_utc_or_generalized(writer.next(), self.revocation_time);
+			write_dt_utc_or_generalized(writer.next(), self.revocation_time)?;
 
 			// Write extensions if applicable.
 			// RFC 5280 §5.3:
@@ -387,7 +393,7 @@ impl RevokedCertParams {
 			//   dates (Section 5.3.2) whenever this information is available.
 			let has_reason_code =
 				matches!(self.reason_code, Some(reason) if reason != RevocationReason::Unspecified);
-			let has_invalidity_date = self.invalidity_date.is_some();
+			let has_invalidity_date = invalidity_date.is_some();
 			if has_reason_code || has_invalidity_date {
 				writer.next().write_sequence(|writer| {
 					// Write reason code if present.
@@ -398,18 +404,20 @@ impl RevokedCertParams {
 					}
 
 					// Write invalidity date if present.
-					if let Some(invalidity_date) = self.invalidity_date {
+					if let Some(invalidity_date) = invalidity_date {
 						write_x509_extension(
 							writer.next(),
 							oid::CRL_INVALIDITY_DATE,
 							false,
 							|writer| {
-								write_dt_utc_or_generalized(writer, invalidity_date);
+								// Already in UTC and in range, this can not fail
+								let _ = write_dt_utc_or_generalized(writer, invalidity_date);
 							},
 						)
 					}
 				});
 			}
+			Ok(())
 		})
 	}
 }
